@@ -1573,6 +1573,15 @@ class TextQueryBackend(Backend):
                 idx_inner = self.precedence.index(inner_class)
             except ValueError:
                 idx_inner = -1
+        elif (
+            isinstance(inner, ConditionFieldEqualsValueExpression)
+            and isinstance(inner.value, SigmaExists)
+            and not inner.value
+            and not self.explicit_not_exists_expression
+        ):
+            # Special case: field non-existence is converted as negated field existence expression
+            # if there's no dedicated expression for it.
+            idx_inner = self.precedence.index(ConditionNOT)
         else:
             inner_class = precedence_map.get(inner.__class__, inner.__class__)
             try:
